@@ -39,6 +39,10 @@ def sources():
         ("own_schemas", os.path.join(core.REPO, "xsdata", "schemas"), False, 1),
         ("cycle", os.path.join(core.VERIF, "sim", "c12", "schemas", "cycle"), False, 4),
         ("mixed", os.path.join(core.VERIF, "sim", "c12", "schemas", "mixed"), False, 3),
+        ("sink", os.path.join(core.VERIF, "sim", "c12", "schemas", "sink"), False, 4),
+        ("sink_registry", os.path.join(core.VERIF, "sim", "c12", "schemas", "sink", "registry.xsd"), False, 2),
+        ("xml_samples", os.path.join(core.VERIF, "sim", "c12", "samples", "xmldocs"), False, 2),
+        ("json_samples", os.path.join(core.VERIF, "sim", "c12", "samples", "jsondocs"), False, 2),
         ("choices", os.path.join(core.VERIF, "sim", "c12", "schemas", "choices"), False, 4),
         ("samename", os.path.join(core.VERIF, "sim", "c12", "schemas", "samename"), False, 4),
         ("samename_ledger", os.path.join(core.VERIF, "sim", "c12", "schemas", "samename", "ledger.xsd"), False, 2),
